@@ -294,7 +294,7 @@ func (w *world) emit(phase int, op string, attack bool, msgs []sdk.Msg, signers 
 		w.rec.modelled++
 	}
 	w.rec.coq = append(w.rec.coq, fmt.Sprintf("mkCase %d %s %s %s %s %s", phase, hx.List(sg), hx.List(bal), hx.List(cl), hx.List(facts), model))
-	j := jcase{Hist: w.hist, Step: w.step, Phase: []string{"tx", "begin", "end"}[phase], Op: op, Attack: attack, Signers: js, OK: ok, Log: log,
+	j := jcase{Hist: w.hist, Step: w.step, Phase: []string{"tx", "begin", "end", "genesis"}[phase], Op: op, Attack: attack, Signers: js, OK: ok, Log: log,
 		Bal: jb, Claims: jc, Facts: jfacts, Seed: w.seed}
 	for _, m := range msgs {
 		j.Msgs = append(j.Msgs, msgName(m))
